@@ -714,7 +714,7 @@ def evaluate__format_number(self: XPathFunction, context: ta.ContextType = None)
         subpic = subpic[:-1]
 
         exponent = value.as_tuple().exponent
-        if isinstance(exponent, int) and exponent < 0:
+        if isinstance(exponent, int) and exponent < 0 or not value.is_finite():
             value *= 100
         else:
             value = decimal.Decimal(int(value) * 100)
@@ -724,7 +724,7 @@ def evaluate__format_number(self: XPathFunction, context: ta.ContextType = None)
         subpic = subpic[:-1]
 
         exponent = value.as_tuple().exponent
-        if isinstance(exponent, int) and exponent < 0:
+        if isinstance(exponent, int) and exponent < 0 or not value.is_finite():
             value *= 1000
         else:
             value = decimal.Decimal(int(value) * 1000)
